@@ -8,8 +8,11 @@ namespace sim {
 
 enum WideMode { WM_VAL, WM_REF, WM_CREF, WM_RREF, WM_PTR, WM_UPTR };
 
-struct WP { const void* addr; long val; };
+struct WP { const void* addr; long val; bool nc = false; /* seen as a non-const lvalue */ };
 inline WP wp(const int& x) { return WP{&x, x}; }
+// for int& parameters: which overload a clause selects tells whether _N is the caller's modifiable object there
+inline WP wpr(int& x) { return WP{&x, x, true}; }
+inline WP wpr(const int& x) { return WP{&x, x, false}; }
 inline WP wp(int* const& p) { return WP{p, p ? *p : -1}; }
 inline WP wp(const std::unique_ptr<Tracked>& p) { return WP{p.get(), p ? p->v : -1}; }
 inline WP wp(trompeloeil::illegal_argument const&) { return WP{nullptr, -2}; }
@@ -25,7 +28,7 @@ struct WideRun {
   int hits[3] = {0, 0, 0};
   long returned = 0, copies = 0;
   bool satisfied = false;
-  int ident = 0;                      // > 0: a RETURN(_k) / RETURN(&_k) case, only identity is checked
+  int ident = 0;                      // > 0: a RETURN(_k) / RETURN(&_k) case, only identity is checked; -1: THROW(std::move(_k))
   const void* ret_addr = nullptr;     // what the caller received
   const void* want_ret = nullptr;     // the caller's own k-th argument
 };
